@@ -193,16 +193,38 @@ pub fn check_c09(c: &DedupCase, acc: &mut Acc, record: bool) -> Verdict {
     Verdict::Pass
 }
 
+/// compiled (derive-macro) declarations that carry deduplicated strings somewhere inside: the writer's and the
+/// reader's order of assigning ids is then the order the *macro expansion* visits the fields in
+fn compiled_dedup_strategy(d: &Arc<vmodel::Decl>) -> BoxedStrategy<DedupCase> {
+    let ty = Ty::Adt(d.clone());
+    let name = d.name.clone();
+    (proptest::collection::vec(val_strategy(&ty, cfg()), 1..=2), any::<u16>(), any::<u8>())
+        .prop_map(move |(vals, fault_sel, fault_kind)| DedupCase { items: vals.into_iter().map(|v| (ty.clone(), v)).collect(), placement: format!("compiled declaration {}", if name.starts_with('E') { "(enum)" } else { "(struct)" }), fault_sel, fault_kind })
+        .boxed()
+}
+
 pub fn run_c09(cx: &Cx) -> PropResult {
     let per_shard = cx.n(50_000, 1_500_000);
+    let compiled: Vec<Arc<vmodel::Decl>> = crate::props::derived::batch().all().into_iter().filter(|d| Ty::Adt(d.clone()).any(&|t| *t == Ty::Dedup)).collect();
+    let per_decl = cx.n(1_500, 30_000);
     let acc = parallel(cx, &|shard, acc| {
+        for (i, d) in compiled.iter().enumerate() {
+            if i % cx.shards != shard {
+                continue;
+            }
+            let strat = compiled_dedup_strategy(d);
+            if drive(tag_seed(derive_seed(cx.seed, cx.prop, i as u64, 7), 10 + (i as u64 % 200)), &strat, per_decl, acc, &|c: &DedupCase| to_json(c), &mut |c, a, r| check_c09(c, a, r)) {
+                return;
+            }
+            acc.bump("compiled_declarations_with_deduplicated_strings", 1);
+        }
         let strat = dedup_case_strategy();
         drive(tag_seed(derive_seed(cx.seed, cx.prop, shard as u64, 0), 0), &strat, per_shard, acc, &|c: &DedupCase| to_json(c), &mut |c, a, r| check_c09(c, a, r));
     });
     PropResult::new(
         acc,
         "exploration",
-        "cases = write sequences over a six-string alphabet (empty, ASCII, non-ASCII, long, one equal to a removed field's name): (i) flat streams of 0-40 (dedup | plain) writes into one SerializationContext; (ii) tuples, Vec<DS>, Option/Result/LinkedList of DS; (iii) DS fields of version-0 records; (iv) DS fields of evolved records whose header carries 1-2 removed/transient names, nested in each other and repeated in a Vec so that the second instance's header names are back-references; plus run-time generated declarations with DS fields; 1-3 values back to back. Oracles: decode == strings written; stream byte-identical to the model (ids from 1 in first-occurrence order, header names before field strings, every repeat exactly zigzag_varint(-id), first occurrences as plain strings); flat streams without repeats identical to the all-plain stream; a rewritten back-reference to an id never introduced (introduced+1, i32::MIN, introduced+1000) decodes to Err(InvalidStringId). Same definition on both sides. Non-trivial = at least one repeat and a first occurrence after a repeat.",
+        "cases = write sequences over a six-string alphabet (empty, ASCII, non-ASCII, long, one equal to a removed field's name): (i) flat streams of 0-40 (dedup | plain) writes into one SerializationContext; (ii) tuples, Vec<DS>, Option/Result/LinkedList of DS; (iii) DS fields of version-0 records; (iv) DS fields of evolved records whose header carries 1-2 removed/transient names, nested in each other and repeated in a Vec so that the second instance's header names are back-references; plus run-time generated declarations with DS fields, and every declaration of the compiled batch (real derive-macro code) that contains a DS anywhere inside; 1-3 values back to back. Oracles: decode == strings written; stream byte-identical to the model (ids from 1 in first-occurrence order, header names before field strings, every repeat exactly zigzag_varint(-id), first occurrences as plain strings); flat streams without repeats identical to the all-plain stream; a rewritten back-reference to an id never introduced (introduced+1, i32::MIN, introduced+1000) decodes to Err(InvalidStringId). Same definition on both sides. Non-trivial = at least one repeat and a first occurrence after a repeat.",
     )
 }
 
